@@ -12,7 +12,7 @@ import time
 
 import taskchain.cache as tcache
 
-KIND = {'acq1': 'acq', 'acq2': 'acq', 'chk': 'chk', 'rel1': 'rel', 'rel2': 'rel', 'opnr': 'opnr', 'rd': 'rd',
+KIND = {'acq1': 'acq', 'acq2': 'acq', 'chk': 'chk', 'rel1': 'rel', 'rel2': 'rel', 'relf': 'rel', 'opnr': 'opnr', 'rd': 'rd',
         'comp': 'comp', 'opnw': 'opnw', 'wra': 'wra', 'wrb': 'wrb', 'cls': 'cls'}
 SILENT = {'br', 'fin', 'Done'}  # labels without a yield point in the code
 
@@ -239,9 +239,13 @@ def _file_complete(path):
         return False
 
 
-def execute(steps, ops, present, directory, cache_factory=None, key='the key', rng=None, kind='json'):
-    """Run one behaviour.  steps: [(caller, label)], ops: {caller: 'get'|'goc'|'force'}.
-    Returns dict(results, file, drift, log, computes)."""
+class ComputeFailed(Exception):
+    """raised by the computer of a caller whose computation is to fail"""
+
+
+def execute(steps, ops, present, directory, cache_factory=None, key='the key', rng=None, kind='json', fails=()):
+    """Run one behaviour.  steps: [(caller, label)], ops: {caller: 'get'|'goc'|'force'}; fails: callers whose computer
+    raises.  Returns dict(results, file, drift, log, computes (completed), attempted)."""
     s = Sched()
     s.finished = set()
     _S[0] = s
@@ -249,13 +253,16 @@ def execute(steps, ops, present, directory, cache_factory=None, key='the key', r
     s.cache_file = str(cache.filepath(key))
     if present:
         cache.get_or_compute(key, lambda: value_of(0, kind))
-    results, computes = {}, []
+    results, computes, attempted = {}, [], []
 
     def body(c):
         s.managed[threading.get_ident()] = c
 
         def computer():
             s.yield_point('comp')
+            attempted.append(c)
+            if c in fails:
+                raise ComputeFailed(f'computation of caller {c} fails')
             computes.append(c)
             return value_of(c, kind)
 
@@ -265,6 +272,8 @@ def execute(steps, ops, present, directory, cache_factory=None, key='the key', r
                 results[c] = ('noval',) if r is tcache.NO_VALUE else ('val', r)
             else:
                 results[c] = ('val', cache.get_or_compute(key, computer, force=(ops[c] == 'force')))
+        except ComputeFailed:
+            results[c] = ('failed',)
         except BaseException as e:  # noqa
             results[c] = ('exc', f'{type(e).__name__}: {e}'[:200])
         finally:
@@ -364,5 +373,5 @@ def execute(steps, ops, present, directory, cache_factory=None, key='the key', r
         if r[0] == 'val' and kind != 'json':
             who = [w for w in set(computes) | {0} if same_value(kind, r[1], value_of(w, kind))]
             results[c] = ('val', {'by': who[0]} if who else {'by': None, 'repr': str(r[1])[:60]})
-    return dict(results=results, file=content, drift=s.drift, log=s.log, computes=computes,
+    return dict(results=results, file=content, drift=s.drift, log=s.log, computes=computes, attempted=attempted,
                 hung=[c for c, t in threads.items() if t.is_alive()], facts=facts, final_ok=final_ok, kind=kind)
